@@ -30,7 +30,7 @@ DEFAULT_TF = 1e-3          # dadi.Integration.timescale_factor on this tree (che
 def tasks(tier):
     q = tier == 'quick'
     out = []
-    nsh, per = (8, 8) if q else (16, 90)
+    nsh, per = (8, 5) if q else (16, 90)
     for s in range(nsh):
         out.append(Task('props.bounded_C01:drv_coal', name='C01/bounded/coal.%d' % s, shard=s, nshards=nsh, per=per, tier=tier, timeout=1500))
     nsh, per = (4, 2) if q else (8, 30)
